@@ -1,30 +1,190 @@
-(* C24 — proofs: every committed state of every schedule satisfies the declared constraints,
-   given the rejecting writer and the commit-time re-validation of merged states. *)
+(* C24 — proofs.
+   1. the rejecting writer meets the enforcement hypothesis;
+   2. the commit-time validators are sound: they find nothing => the merged database is valid;
+   3. committed_consistent: every committed database of every schedule is valid, given the
+      enforcement oracle hypothesis (sessions with disabled checks are outside it);
+   4. the unique validator's collision scan: nothing found => unique (stale entries only make it stricter);
+   5. recorded violations of a merge: CHECK / NOT NULL / FOREIGN KEY exact, UNIQUE refuted. *)
 From Coq Require Import NArith List Bool Lia.
-From Dolt Require Import C23.Model C24.Model C24.Spec.
+From Dolt Require Import C23.Model C23.Spec C23.Proofs C24.Model C24.Spec.
 Import ListNotations.
 Local Open Scope N_scope.
 
+Lemma overlay_right_base (b l : option row) : overlay_row b l b = l.
+Proof.
+  destruct b as [[? ?]|], l as [[? ?]|];
+    unfold overlay_row, overlay_cell, cv, getcol, ocell_eqb; cbn [fst snd N.eqb];
+    decide_cells; try reflexivity; congruence.
+Qed.
+
 Section P.
   Variable U : list N.
+  Notation get := (get U).
 
-  Definition Inv (w : world) : Prop :=
-    valid U (w_head w) = true /\
-    forall i, s_active (w_ss w i) = true -> valid U (s_work (w_ss w i)) = true.
+  (* ---------------------------------------------------------------- *)
+  (* 1. boolean validity is sound; the rejecting writer enforces       *)
+  Lemma get_some_inU t k r : get t k = Some r -> In k U.
+  Proof.
+    unfold Model.get. destruct (inU U k) eqn:Hk; [|discriminate]. intros _. apply inU_In. exact Hk.
+  Qed.
 
-  Lemma exec_c_valid st t : valid U t = true -> valid U (snd (exec_c U st t)) = true.
+  Lemma uniq_b_sound t : uniq_b U t = true -> Uniq U t.
+  Proof.
+    unfold uniq_b. rewrite forallb_forall. intros H k1 k2 r1 r2 H1 H2 Hne Hp1 Hp2.
+    specialize (H k1 (get_some_inU _ _ _ H1)). rewrite H1 in H.
+    rewrite forallb_forall in H. specialize (H k2 (get_some_inU _ _ _ H2)).
+    rewrite H2, Hp1, Hp2 in H. destruct (N.eqb_spec k2 k1); [congruence|].
+    cbn [orb] in H. destruct (clash r1 r2); [discriminate | reflexivity].
+  Qed.
+
+  Lemma valid_sound t : valid U t = true -> Valid U t.
+  Proof.
+    unfold valid. rewrite forallb_forall. intros H. repeat split.
+    - intros k r Hk. specialize (H k (get_some_inU _ _ _ Hk)). rewrite Hk in H.
+      apply andb_true_iff in H as [H _]. apply andb_true_iff in H as [H _]. exact H.
+    - intros k r Hk. specialize (H k (get_some_inU _ _ _ Hk)). rewrite Hk in H.
+      apply andb_true_iff in H as [H _]. apply andb_true_iff in H as [_ H]. exact H.
+    - apply uniq_b_sound. unfold uniq_b. apply forallb_forall. intros k Hin.
+      specialize (H k Hin). destruct (get t k); [|reflexivity].
+      apply andb_true_iff in H as [_ H]. exact H.
+  Qed.
+
+  Theorem exec_c_enforces i st t : Valid U t -> Valid U (snd (exec_c U i st t)).
   Proof.
     intros H. unfold exec_c. destruct (exec_dml U st t) as [o t'].
     destruct (so_err o =? err_none); [|exact H].
-    destruct (valid U t') eqn:Hv; cbn [snd]; assumption.
+    destruct (valid U t') eqn:Hv; cbn [snd]; [apply valid_sound, Hv | exact H].
   Qed.
 
-  Lemma commit_c_valid h s w : valid U h = true -> valid U w = true -> valid U (fst (commit_c U h s w)) = true.
+  (* ---------------------------------------------------------------- *)
+  (* 2. validators                                                     *)
+  Lemma existsb_false {A} (f : A -> bool) l x : existsb f l = false -> In x l -> f x = false.
   Proof.
-    intros Hh Hw. unfold commit_c. destruct (table_eqb U h s); [exact Hw|].
-    destruct (merge_tables U s h w) as [m c]. destruct c; [exact Hh|].
-    destruct (uscan U U h m (entries_of U h)); [exact Hh|].
-    destruct (valid U m) eqn:Hm; cbn [fst]; assumption.
+    intros H Hin. destruct (f x) eqn:Hf; [|reflexivity].
+    assert (existsb f l = true) by (apply existsb_exists; exists x; split; assumption). congruence.
+  Qed.
+
+  Lemma tbl_same_get par x y k : tbl_same U par x y = true -> is_parent k = par -> get x k = get y k.
+  Proof.
+    unfold tbl_same. rewrite forallb_forall. intros H Hp.
+    destruct (inU U k) eqn:Hk.
+    - apply inU_In in Hk. specialize (H k Hk). rewrite Hp in H.
+      rewrite Bool.eqb_reflx in H. cbn [negb orb] in H.
+      destruct (orow_eqb_spec (get x k) (get y k)); congruence.
+    - rewrite !get_out by exact Hk. reflexivity.
+  Qed.
+
+  (* a merged row of a table that is not changed on both sides is a row of one side *)
+  Lemma not_both_changed b l r m k :
+    (forall k, get m k = overlay_row (get b k) (get l k) (get r k)) ->
+    both_changed U (is_parent k) b l r = false -> get m k = get l k \/ get m k = get r k.
+  Proof.
+    intros Hm Hb. unfold both_changed in Hb. rewrite Hm.
+    destruct (tbl_same U (is_parent k) b l) eqn:Hl.
+    - right. rewrite <- (tbl_same_get _ _ _ k Hl eq_refl).
+      destruct (overlay_same_base (get b k) (get r k)) as [H _]. exact H.
+    - destruct (tbl_same U (is_parent k) b r) eqn:Hr; [|discriminate].
+      left. rewrite <- (tbl_same_get _ _ _ k Hr eq_refl). apply overlay_right_base.
+  Qed.
+
+  Lemma rowscan_sound b l r m :
+    (forall k, get m k = overlay_row (get b k) (get l k) (get r k)) ->
+    RowsOk U b -> RowsOk U l -> RowsOk U r -> rowscan U b l r m = false -> RowsOk U m.
+  Proof.
+    intros Hm Hb Hl Hr Hs k x Hk.
+    pose proof (existsb_false _ _ k Hs (get_some_inU _ _ _ Hk)) as Hf. cbn beta in Hf.
+    destruct (both_changed U (is_parent k) b l r) eqn:Hbc.
+    - cbn [andb] in Hf. unfold row_bad in Hf. rewrite Hk in Hf.
+      destruct (orow_eqb_spec (get b k) (Some x)) as [He|Hne]; cbn [negb andb] in Hf.
+      + apply (Hb k x He).
+      + destruct (row_ok k x); [reflexivity | discriminate].
+    - destruct (not_both_changed b l r m k Hm Hbc) as [He|He]; rewrite He in Hk.
+      + exact (Hl k x Hk).
+      + exact (Hr k x Hk).
+  Qed.
+
+  Lemma is_parent_pbase x : is_parent (pbase + x) = true.
+  Proof. unfold is_parent, pbase. apply N.leb_le. lia. Qed.
+
+  (* fk_bad is exactly "row of the merged data without its parent", given a valid base *)
+  Lemma fk_bad_exact b m k :
+    FkOk U b ->
+    (fk_bad U b m k = true <-> exists x, get m k = Some x /\ fk_ok_row U m k x = false).
+  Proof.
+    intros Hb. split.
+    - intros H. unfold fk_bad in H. apply orb_true_iff in H as [H|H].
+      + unfold fk_bad_child in H. apply andb_true_iff in H as [_ H3].
+        destruct (get m k) as [x|]; [|discriminate]. exists x. split; [reflexivity|].
+        destruct (fk_ok_row U m k x); [discriminate | reflexivity].
+      + unfold fk_bad_orphan, parent_removed in H. apply andb_true_iff in H as [H1 H2].
+        destruct (get m k) as [x|]; [|discriminate]. exists x. split; [reflexivity|].
+        unfold fk_ok_row. destruct (is_parent k); [discriminate|].
+        destruct (snd x) as [y|]; [|discriminate].
+        rewrite is_parent_pbase in H2. cbn [andb] in H2.
+        destruct (get b (pbase + y)); [|discriminate]. destruct (get m (pbase + y)); [discriminate | reflexivity].
+    - intros [x [Hk Hf]]. unfold fk_bad, fk_bad_child, fk_bad_orphan, parent_removed. rewrite Hk, Hf.
+      unfold fk_ok_row in Hf.
+      destruct (is_parent k) eqn:Hp; [discriminate|]. cbn [negb andb].
+      destruct (snd x) as [y|] eqn:Hy; [|discriminate].
+      destruct (get m (pbase + y)) eqn:Hpm; [discriminate|].
+      destruct (orow_eqb_spec (get b k) (Some x)) as [He|Hne]; cbn [negb andb orb].
+      + (* unchanged child: its parent existed in the base and is gone *)
+        specialize (Hb k x He). unfold fk_ok_row in Hb. rewrite Hp, Hy in Hb.
+        rewrite is_parent_pbase. destruct (get b (pbase + y)); [reflexivity | discriminate].
+      + reflexivity.
+  Qed.
+
+  Lemma fkscan_sound b m : FkOk U b -> fkscan U b m = false -> FkOk U m.
+  Proof.
+    intros Hb Hs k x Hk.
+    pose proof (existsb_false _ _ k Hs (get_some_inU _ _ _ Hk)) as Hf.
+    destruct (fk_ok_row U m k x) eqn:E; [reflexivity|].
+    assert (fk_bad U b m k = true) by (apply fk_bad_exact; [exact Hb | exists x; split; assumption]).
+    congruence.
+  Qed.
+
+  Theorem validators_sound b l r m :
+    (forall k, get m k = overlay_row (get b k) (get l k) (get r k)) ->
+    Valid U b -> Valid U l -> Valid U r ->
+    rowscan U b l r m = false -> fkscan U b m = false -> uniq_b U m = true ->
+    Valid U m.
+  Proof.
+    intros Hm [Hb1 [Hb2 _]] [Hl1 _] [Hr1 _] H1 H2 H3. repeat split.
+    - exact (rowscan_sound b l r m Hm Hb1 Hl1 Hr1 H1).
+    - exact (fkscan_sound b m Hb2 H2).
+    - exact (uniq_b_sound m H3).
+  Qed.
+
+  (* cell-wise merging cannot put a NULL into a NOT NULL column that is non-NULL on both sides *)
+  Theorem merge_keeps_notnull (b l r : option row) x :
+    row_conflict_b b l r = false -> overlay_row b l r = Some x ->
+    (forall y, l = Some y -> notnull_ok y = true) -> (forall y, r = Some y -> notnull_ok y = true) ->
+    notnull_ok x = true.
+  Proof.
+    intros Hc Ho Hl Hr.
+    destruct b as [[ba bb]|], l as [[la lb]|], r as [[ra rb]|];
+      try specialize (Hl _ eq_refl); try specialize (Hr _ eq_refl);
+      unfold row_conflict_b, cell_conflict_b, overlay_row, overlay_cell, cv, getcol, ocell_eqb, notnull_ok in *;
+      cbn [fst snd N.eqb negb andb orb] in *; decide_cells; cbn [negb andb orb fst snd] in *;
+      try discriminate; inversion Ho; subst; cbn [fst]; assumption.
+  Qed.
+
+  (* ---------------------------------------------------------------- *)
+  (* 3. the machine                                                    *)
+  Lemma commit_c_valid h s w :
+    Valid U h -> Valid U s -> Valid U w -> Valid U (fst (commit_c U h s w)).
+  Proof.
+    intros Hh Hs Hw. unfold commit_c. destruct (table_eqb U h s); [exact Hw|].
+    pose proof (merge_tables_conflict U s h w) as Hc.
+    pose proof (merge_tables_overlay U s h w) as Ho.
+    destruct (merge_tables U s h w) as [m c]. cbn [fst snd] in *. destruct c; [exact Hh|].
+    symmetry in Hc. specialize (Ho Hc).
+    destruct (both_changed U false s h w && negb (is_nil (urec U U s h m (entries_of U h) []))); [exact Hh|].
+    cbn [orb]. destruct (rowscan U s h w m) eqn:H1; [exact Hh|].
+    destruct (fkscan U s m) eqn:H2; [exact Hh|].
+    destruct (uniq_b U m) eqn:H3; cbn [negb orb fst]; [|exact Hh].
+    apply (validators_sound s h w m); try assumption.
+    intros k. rewrite (Ho k). apply get_overlay.
   Qed.
 
   (* a refused commit (conflict or constraint violation) leaves the committed state as it was *)
@@ -33,100 +193,329 @@ Section P.
   Proof.
     unfold commit_c. destruct (table_eqb U h s); cbn [fst snd]; [congruence|].
     destruct (merge_tables U s h w) as [m c]. destruct c; [reflexivity|].
-    destruct (uscan U U h m (entries_of U h)); [reflexivity|].
-    destruct (valid U m); cbn [fst snd]; [congruence | reflexivity].
+    match goal with |- context [if ?c then _ else _] => destruct c end; cbn [fst snd]; [reflexivity | congruence].
   Qed.
 
-  Lemma upd_same {A} (f : N -> A) i v : upd f i v i = v.
-  Proof. unfold upd. rewrite N.eqb_refl. reflexivity. Qed.
+  Section Machine.
+    (* statement-level enforcement: an oracle.  [enabled i]: session i has not disabled constraint
+       checks (foreign_key_checks = 0 puts a session outside the hypothesis). *)
+    Variable ex : N -> stmt -> table -> sobs * table.
+    Variable enabled : N -> bool.
+    Hypothesis ex_enforces : forall i st t, enabled i = true -> Valid U t -> Valid U (snd (ex i st t)).
 
-  Lemma set_sess_inv w i s' :
-    Inv w -> (s_active s' = true -> valid U (s_work s') = true) ->
-    Inv {| w_head := w_head w; w_ss := upd (w_ss w) i s' |}.
+    Definition Inv (w : world) : Prop :=
+      Valid U (w_head w) /\
+      forall i, s_active (w_ss w i) = true -> Valid U (s_work (w_ss w i)) /\ Valid U (s_snap (w_ss w i)).
+
+    Lemma upd_same {A} (f : N -> A) i v : upd f i v i = v.
+    Proof. unfold upd. rewrite N.eqb_refl. reflexivity. Qed.
+
+    Lemma set_sess_inv w i s' :
+      Inv w -> (s_active s' = true -> Valid U (s_work s') /\ Valid U (s_snap s')) ->
+      Inv {| w_head := w_head w; w_ss := upd (w_ss w) i s' |}.
+    Proof.
+      intros [Hh Hs] Hn. split; [exact Hh|]. cbn [w_ss]. intros j Hj. unfold upd in *.
+      destruct (j =? i); [apply Hn, Hj | apply Hs, Hj].
+    Qed.
+
+    Lemma commit_sess_c_inv i w :
+      Inv w -> s_active (w_ss w i) = true -> Inv (snd (commit_sess_c U i w)).
+    Proof.
+      intros [Hh Hs] Ha. unfold commit_sess_c. destruct (Hs i Ha) as [Hw Hsn].
+      pose proof (commit_c_valid (w_head w) (s_snap (w_ss w i)) (s_work (w_ss w i)) Hh Hsn Hw) as Hc.
+      destruct (commit_c U (w_head w) (s_snap (w_ss w i)) (s_work (w_ss w i))) as [h' e]. cbn [fst snd] in *.
+      split; [exact Hc|]. cbn [w_ss]. intros j Hj. unfold upd in *.
+      destruct (j =? i); [cbn in Hj; discriminate | apply Hs, Hj].
+    Qed.
+
+    Lemma cstep_inv i st w : enabled i = true -> Inv w -> Inv (snd (cstep U ex i st w)).
+    Proof.
+      intros Hen HI. pose proof HI as [Hh Hs]. unfold cstep.
+      assert (Hens : Valid U (s_work (ensure_txn (w_ss w i) (w_head w))) /\
+                     Valid U (s_snap (ensure_txn (w_ss w i) (w_head w)))).
+      { unfold ensure_txn. destruct (s_active (w_ss w i)) eqn:Ha; [apply Hs, Ha | split; exact Hh]. }
+      assert (Hact : s_active (ensure_txn (w_ss w i) (w_head w)) = true).
+      { unfold ensure_txn. destruct (s_active (w_ss w i)) eqn:Ha; [exact Ha | reflexivity]. }
+      assert (Hdml : forall st',
+        Inv (snd (let '(o, t') := ex i st' (s_work (ensure_txn (w_ss w i) (w_head w))) in
+                  let w1 := {| w_head := w_head w;
+                               w_ss := upd (w_ss w) i (s_with_work (ensure_txn (w_ss w i) (w_head w)) t') |} in
+                  if negb (s_active (w_ss w i)) && s_auto (w_ss w i)
+                  then let '(e, w2) := commit_sess_c U i w1 in (if e =? err_none then o else obs_err e, w2)
+                  else (o, w1)))).
+      { intros st'. pose proof (ex_enforces i st' _ Hen (proj1 Hens)) as Hv.
+        destruct (ex i st' (s_work (ensure_txn (w_ss w i) (w_head w)))) as [o t']. cbn [snd] in Hv. cbv zeta.
+        set (w1 := {| w_head := w_head w; w_ss := upd (w_ss w) i (s_with_work (ensure_txn (w_ss w i) (w_head w)) t') |}).
+        assert (HI1 : Inv w1) by (apply set_sess_inv; [exact HI | intros _; split; [exact Hv | exact (proj2 Hens)]]).
+        destruct (negb (s_active (w_ss w i)) && s_auto (w_ss w i)); [|exact HI1].
+        pose proof (commit_sess_c_inv i w1 HI1) as Hc.
+        destruct (commit_sess_c U i w1) as [e w2]. cbn [snd] in *. apply Hc.
+        unfold w1. cbn [w_ss]. rewrite upd_same. exact Hact. }
+      destruct st; try apply Hdml.
+      - (* BEGIN *)
+        destruct (s_active (w_ss w i)) eqn:Ha.
+        + pose proof (commit_sess_c_inv i w HI Ha) as Hc.
+          destruct (commit_sess_c U i w) as [e w']. cbn [snd] in Hc.
+          destruct (e =? err_none); cbn [snd]; [|exact Hc].
+          apply set_sess_inv; [exact Hc | intros _; split; exact (proj1 Hc)].
+        + cbn [snd]. apply set_sess_inv; [exact HI | intros _; split; exact Hh].
+      - (* COMMIT *)
+        destruct (s_active (w_ss w i)) eqn:Ha; [|exact HI].
+        pose proof (commit_sess_c_inv i w HI Ha) as Hc.
+        destruct (commit_sess_c U i w) as [e w']. cbn [snd] in *. exact Hc.
+      - (* ROLLBACK *)
+        cbn [snd]. apply set_sess_inv; [exact HI | cbn; discriminate].
+    Qed.
+
+    Lemma crun_inv sched : forall w,
+      (forall i st, In (i, st) sched -> enabled i = true) -> Inv w -> Inv (snd (crun U ex sched w)).
+    Proof.
+      induction sched as [|[i st] rest IH]; intros w Hen HI; [exact HI|].
+      cbn [crun]. pose proof (cstep_inv i st w (Hen i st (or_introl eq_refl)) HI) as H1.
+      destruct (cstep U ex i st w) as [o w1]. cbn [snd] in H1.
+      specialize (IH w1 (fun j s Hin => Hen j s (or_intror Hin)) H1).
+      destruct (crun U ex rest w1) as [os w2]. exact IH.
+    Qed.
+
+    (* C24: every committed database of every schedule satisfies PRIMARY KEY (inherent), NOT NULL,
+       CHECK, UNIQUE and FOREIGN KEY — given the statement-level enforcement oracle for the sessions
+       of the schedule (explicit exception: sessions that disabled the checks), and the commit-time
+       validation modelled above.  Every prefix of a schedule is a schedule, so this covers every
+       intermediate committed state. *)
+    Theorem committed_consistent sched w :
+      (forall i st, In (i, st) sched -> enabled i = true) ->
+      Valid U (w_head w) ->
+      (forall i, s_active (w_ss w i) = true -> Valid U (s_work (w_ss w i)) /\ Valid U (s_snap (w_ss w i))) ->
+      Valid U (w_head (snd (crun U ex sched w))).
+    Proof. intros Hen Hh Hs. exact (proj1 (crun_inv sched w Hen (conj Hh Hs))). Qed.
+  End Machine.
+
+  (* ---------------------------------------------------------------- *)
+  (* 4. the unique validator's collision scan                          *)
+  (* cur P : rows after the keys in P have been visited *)
+  Definition cur (l m : table) (P : list N) (k : N) : option row :=
+    if existsb (N.eqb k) P then get m k else get l k.
+
+  Definition UInv (l m : table) (P : list N) (E : list (cell * N)) : Prop :=
+    (forall k x, is_parent k = false -> cur l m P k = Some x -> In (fst x, k) E) /\
+    (forall k1 k2 x1 x2, cur l m P k1 = Some x1 -> cur l m P k2 = Some x2 -> k1 <> k2 ->
+                         is_parent k1 = false -> is_parent k2 = false -> clash x1 x2 = false).
+
+  Lemma cur_cons_other l m P k k' : k' <> k -> cur l m (k :: P) k' = cur l m P k'.
+  Proof. intros H. unfold cur. cbn [existsb]. destruct (N.eqb_spec k' k); [congruence | reflexivity]. Qed.
+
+  Lemma cur_cons_same l m P k : cur l m (k :: P) k = get m k.
+  Proof. unfold cur. cbn [existsb]. rewrite N.eqb_refl. reflexivity. Qed.
+
+  Lemma collide_false E a k x k' :
+    collide E (Some a) k = false -> In (x, k') E -> k' <> k -> x <> Some a.
   Proof.
-    intros [Hh Hs] Hn. split; [exact Hh|]. cbn [w_ss]. intros j Hj. unfold upd in *.
-    destruct (j =? i); [apply Hn, Hj | apply Hs, Hj].
+    unfold collide. intros H Hin Hne Heq. subst x.
+    pose proof (existsb_false _ _ (Some a, k') H Hin) as Hf. cbn [fst snd] in Hf.
+    destruct (cell_eqb_spec (Some a) (Some a)); [|congruence].
+    destruct (N.eqb_spec k' k); [congruence | discriminate].
   Qed.
 
-  Lemma commit_sess_c_inv i w :
-    Inv w -> s_active (w_ss w i) = true -> Inv (snd (commit_sess_c U i w)).
+  Lemma uscan_step l m ks : forall P E,
+    UInv l m P E -> uscan U ks l m E = false -> exists E', UInv l m (rev ks ++ P) E'.
   Proof.
-    intros [Hh Hs] Ha. unfold commit_sess_c.
-    pose proof (commit_c_valid (w_head w) (s_snap (w_ss w i)) (s_work (w_ss w i)) Hh (Hs i Ha)) as Hc.
-    destruct (commit_c U (w_head w) (s_snap (w_ss w i)) (s_work (w_ss w i))) as [h' e]. cbn [fst snd] in *.
-    split; [exact Hc|]. cbn [w_ss]. intros j Hj. unfold upd in *.
-    destruct (j =? i); [cbn in Hj; discriminate | apply Hs, Hj].
+    induction ks as [|k ks IH]; intros P E HI Hs; [exists E; exact HI|].
+    cbn [rev]. rewrite <- app_assoc. cbn [app]. cbn [uscan] in Hs.
+    destruct HI as [Ha Hu].
+    destruct (is_parent k) eqn:Hp.
+    { (* parent key: not part of the unique index *)
+      apply (IH (k :: P) E); [|exact Hs]. split.
+      - intros k' x Hp' Hc. destruct (N.eq_dec k' k) as [->|Hne]; [congruence|].
+        rewrite cur_cons_other in Hc by exact Hne. exact (Ha k' x Hp' Hc).
+      - intros k1 k2 x1 x2 H1 H2 Hne Hp1 Hp2.
+        destruct (N.eq_dec k1 k) as [->|Hn1]; [congruence|]. destruct (N.eq_dec k2 k) as [->|Hn2]; [congruence|].
+        rewrite cur_cons_other in H1, H2 by assumption. exact (Hu k1 k2 x1 x2 H1 H2 Hne Hp1 Hp2). }
+    destruct (orow_eqb_spec (get l k) (get m k)) as [Heq|Hneq].
+    { (* no right edit: the row stays *)
+      assert (Hsame : forall k', cur l m (k :: P) k' = cur l m P k').
+      { intros k'. destruct (N.eq_dec k' k) as [->|Hne]; [|apply cur_cons_other; exact Hne].
+        rewrite cur_cons_same. unfold cur. destruct (existsb (N.eqb k) P); congruence. }
+      apply (IH (k :: P) E); [|exact Hs]. split.
+      - intros k' x Hp' Hc. rewrite Hsame in Hc. exact (Ha k' x Hp' Hc).
+      - intros k1 k2 x1 x2 H1 H2. rewrite Hsame in H1, H2. exact (Hu k1 k2 x1 x2 H1 H2). }
+    destruct (get m k) as [x|] eqn:Hm.
+    - (* right add / modify *)
+      apply orb_false_iff in Hs as [Hcol Hs].
+      apply (IH (k :: P) ((fst x, k) :: E)); [|exact Hs]. split.
+      + intros k' y Hp' Hc. destruct (N.eq_dec k' k) as [->|Hne].
+        * rewrite cur_cons_same, Hm in Hc. inversion Hc; subst. left. reflexivity.
+        * rewrite cur_cons_other in Hc by exact Hne. right. exact (Ha k' y Hp' Hc).
+      + intros k1 k2 x1 x2 H1 H2 Hne Hp1 Hp2.
+        destruct (N.eq_dec k1 k) as [->|Hn1]; destruct (N.eq_dec k2 k) as [->|Hn2]; try congruence.
+        * rewrite cur_cons_same, Hm in H1. inversion H1; subst x1.
+          rewrite cur_cons_other in H2 by exact Hn2.
+          unfold clash. destruct (fst x) as [a|] eqn:Hfa; [|reflexivity].
+          destruct (fst x2) as [a2|] eqn:Hf2; [|reflexivity].
+          pose proof (collide_false E a k (fst x2) k2 Hcol (Ha k2 x2 Hp2 H2) Hn2) as Hd.
+          rewrite Hf2 in Hd. destruct (N.eqb_spec a a2); [subst; congruence | reflexivity].
+        * rewrite cur_cons_same, Hm in H2. inversion H2; subst x2.
+          rewrite cur_cons_other in H1 by exact Hn1.
+          unfold clash. destruct (fst x1) as [a1|] eqn:Hf1; [|reflexivity].
+          destruct (fst x) as [a|] eqn:Hfa; [|reflexivity].
+          pose proof (collide_false E a k (fst x1) k1 Hcol (Ha k1 x1 Hp1 H1) Hn1) as Hd.
+          rewrite Hf1 in Hd. destruct (N.eqb_spec a1 a); [subst; congruence | reflexivity].
+        * rewrite cur_cons_other in H1, H2 by assumption. exact (Hu k1 k2 x1 x2 H1 H2 Hne Hp1 Hp2).
+    - (* right delete *)
+      apply (IH (k :: P) (filter (fun e => negb (snd e =? k)) E)); [|exact Hs]. split.
+      + intros k' y Hp' Hc. destruct (N.eq_dec k' k) as [->|Hne].
+        * rewrite cur_cons_same, Hm in Hc. discriminate.
+        * rewrite cur_cons_other in Hc by exact Hne. apply filter_In. split; [exact (Ha k' y Hp' Hc)|].
+          cbn [snd]. destruct (N.eqb_spec k' k); [congruence | reflexivity].
+      + intros k1 k2 x1 x2 H1 H2 Hne Hp1 Hp2.
+        destruct (N.eq_dec k1 k) as [->|Hn1]; [rewrite cur_cons_same, Hm in H1; discriminate|].
+        destruct (N.eq_dec k2 k) as [->|Hn2]; [rewrite cur_cons_same, Hm in H2; discriminate|].
+        rewrite cur_cons_other in H1, H2 by assumption. exact (Hu k1 k2 x1 x2 H1 H2 Hne Hp1 Hp2).
   Qed.
 
-  Lemma cstep_inv i st w : Inv w -> Inv (snd (cstep U i st w)).
+  (* The collision scan of uniqValidator (left unique index that only grows: stale entries of
+     modified rows stay) finds nothing => the merged table has no duplicate unique value.
+     The converse is false (stale entries: see uniq_violations_exact_refuted). *)
+  Theorem uscan_nothing_unique l m :
+    Uniq U l -> uscan U U l m (entries_of U l) = false -> Uniq U m.
   Proof.
-    intros HI. pose proof HI as [Hh Hs]. unfold cstep.
-    assert (Hens : valid U (s_work (ensure_txn (w_ss w i) (w_head w))) = true).
-    { unfold ensure_txn. destruct (s_active (w_ss w i)) eqn:Ha; [apply Hs, Ha | exact Hh]. }
-    assert (Hact : s_active (ensure_txn (w_ss w i) (w_head w)) = true).
-    { unfold ensure_txn. destruct (s_active (w_ss w i)) eqn:Ha; [exact Ha | reflexivity]. }
-    assert (Hdml : forall st',
-      Inv (snd (let '(o, t') := exec_c U st' (s_work (ensure_txn (w_ss w i) (w_head w))) in
-                let w1 := {| w_head := w_head w;
-                             w_ss := upd (w_ss w) i (s_with_work (ensure_txn (w_ss w i) (w_head w)) t') |} in
-                if negb (s_active (w_ss w i)) && s_auto (w_ss w i)
-                then let '(e, w2) := commit_sess_c U i w1 in (if e =? err_none then o else obs_err e, w2)
-                else (o, w1)))).
-    { intros st'. pose proof (exec_c_valid st' _ Hens) as Hv.
-      destruct (exec_c U st' (s_work (ensure_txn (w_ss w i) (w_head w)))) as [o t']. cbn [snd] in Hv. cbv zeta.
-      set (w1 := {| w_head := w_head w; w_ss := upd (w_ss w) i (s_with_work (ensure_txn (w_ss w i) (w_head w)) t') |}).
-      assert (HI1 : Inv w1) by (apply set_sess_inv; [exact HI | intros _; exact Hv]).
-      destruct (negb (s_active (w_ss w i)) && s_auto (w_ss w i)); [|exact HI1].
-      pose proof (commit_sess_c_inv i w1 HI1) as Hc.
-      destruct (commit_sess_c U i w1) as [e w2]. cbn [snd] in *. apply Hc.
-      unfold w1. cbn [w_ss]. rewrite upd_same. exact Hact. }
-    destruct st; try apply Hdml.
-    - (* BEGIN *)
-      destruct (s_active (w_ss w i)) eqn:Ha.
-      + pose proof (commit_sess_c_inv i w HI Ha) as Hc.
-        destruct (commit_sess_c U i w) as [e w']. cbn [snd] in Hc.
-        destruct (e =? err_none); cbn [snd]; [|exact Hc].
-        apply set_sess_inv; [exact Hc | intros _; exact (proj1 Hc)].
-      + cbn [snd]. apply set_sess_inv; [exact HI | intros _; exact Hh].
-    - (* COMMIT *)
-      destruct (s_active (w_ss w i)) eqn:Ha; [|exact HI].
-      pose proof (commit_sess_c_inv i w HI Ha) as Hc.
-      destruct (commit_sess_c U i w) as [e w']. cbn [snd] in *. exact Hc.
-    - (* ROLLBACK *)
-      cbn [snd]. apply set_sess_inv; [exact HI | cbn; discriminate].
+    intros Hl Hs.
+    assert (H0 : UInv l m [] (entries_of U l)).
+    { split.
+      - intros k x Hp Hc. unfold cur in Hc. cbn [existsb] in Hc. unfold entries_of.
+        apply in_flat_map. exists k. split; [exact (get_some_inU _ _ _ Hc)|].
+        rewrite Hp, Hc. left. reflexivity.
+      - intros k1 k2 x1 x2 H1 H2. unfold cur in H1, H2. cbn [existsb] in H1, H2. exact (Hl k1 k2 x1 x2 H1 H2). }
+    destruct (uscan_step l m U [] _ H0 Hs) as [E' [_ Hu]]. rewrite app_nil_r in Hu.
+    assert (Hcur : forall k, cur l m (rev U) k = get m k).
+    { intros k. unfold cur. destruct (existsb (N.eqb k) (rev U)) eqn:He; [reflexivity|].
+      assert (inU U k = false) as Hk.
+      { unfold inU. destruct (existsb (N.eqb k) U) eqn:E; [|reflexivity].
+        apply existsb_exists in E as [y [Hy Hy2]].
+        assert (existsb (N.eqb k) (rev U) = true) by (apply existsb_exists; exists y; split; [apply -> in_rev; exact Hy | exact Hy2]).
+        congruence. }
+      rewrite !get_out by exact Hk. reflexivity. }
+    intros k1 k2 x1 x2 H1 H2. rewrite <- Hcur in H1, H2. exact (Hu k1 k2 x1 x2 H1 H2).
   Qed.
 
-  Lemma crun_inv sched : forall w, Inv w -> Inv (snd (crun U sched w)).
+  (* Open (not proved): urec_empty_unique —
+       Valid l -> Valid r -> merged = overlay -> urec U b l m (entries_of l) [] = [] -> Uniq m.
+     i.e. that clearArtifact never forgets a collision between two rows that both survive.  The
+     machine re-validates uniqueness of the merged table for that reason (commit_c, uniq_b). *)
+
+  (* ---------------------------------------------------------------- *)
+  (* 5. recorded violations of a merge                                 *)
+  Lemma row_bad_exact b l r m k :
+    (forall k, get m k = overlay_row (get b k) (get l k) (get r k)) ->
+    RowsOk U b -> RowsOk U l -> RowsOk U r ->
+    (both_changed U (is_parent k) b l r && row_bad U b m k = true
+     <-> exists x, get m k = Some x /\ row_ok k x = false).
   Proof.
-    induction sched as [|[i st] rest IH]; intros w HI; [exact HI|].
-    cbn [crun]. pose proof (cstep_inv i st w HI) as H1.
-    destruct (cstep U i st w) as [o w1]. cbn [snd] in H1. specialize (IH w1 H1).
-    destruct (crun U rest w1) as [os w2]. exact IH.
+    intros Hm Hb Hl Hr. split.
+    - intros H. apply andb_true_iff in H as [_ H]. unfold row_bad in H.
+      apply andb_true_iff in H as [_ H]. destruct (get m k) as [x|]; [|discriminate].
+      exists x. split; [reflexivity|]. destruct (row_ok k x); [discriminate | reflexivity].
+    - intros [x [Hk Hf]].
+      destruct (both_changed U (is_parent k) b l r) eqn:Hbc.
+      + cbn [andb]. unfold row_bad. rewrite Hk, Hf. cbn [negb andb].
+        destruct (orow_eqb_spec (get b k) (Some x)) as [He|Hne]; [|reflexivity].
+        rewrite (Hb k x He) in Hf. discriminate.
+      + destruct (not_both_changed b l r m k Hm Hbc) as [He|He]; rewrite He in Hk.
+        * rewrite (Hl k x Hk) in Hf. discriminate.
+        * rewrite (Hr k x Hk) in Hf. discriminate.
   Qed.
 
-  (* Full statement (C24): every committed working set and every Dolt commit satisfies PRIMARY KEY,
-     UNIQUE, FOREIGN KEY, NOT NULL and CHECK unless checks are disabled, and violations produced by
-     merges are recorded.  Proved part: PRIMARY KEY / UNIQUE / CHECK of one table, transaction
-     commits (fast-forward and merge); the statement-level enforcement is the rejecting writer
-     (engine oracle).  Missing: FOREIGN KEY, NOT NULL, branch merges recording violations. *)
-  Theorem committed_consistent_partial sched w :
-    valid U (w_head w) = true ->
-    (forall i, s_active (w_ss w i) = true -> valid U (s_work (w_ss w i)) = true) ->
-    valid U (w_head (snd (crun U sched w))) = true.
-  Proof. intros Hh Hs. exact (proj1 (crun_inv sched w (conj Hh Hs))). Qed.
+  Lemma in_map_filter (ty : N) (f : N -> bool) k :
+    In (ty, k) (map (fun k => (ty, k)) (filter f U)) <-> In k U /\ f k = true.
+  Proof.
+    rewrite in_map_iff. split.
+    - intros [k' [He Hin]]. inversion He; subst. apply filter_In. exact Hin.
+    - intros H. exists k. split; [reflexivity | apply filter_In; exact H].
+  Qed.
+
+  Lemma in_map_ty (ty ty' : N) (f : N -> bool) k :
+    ty <> ty' -> ~ In (ty, k) (map (fun k => (ty', k)) (filter f U)).
+  Proof. intros Hne Hin. apply in_map_iff in Hin as [k' [He _]]. inversion He. congruence. Qed.
+
+  (* After a merge, the recorded FOREIGN KEY / CHECK / NOT NULL violations are exactly the rows of
+     the merged data that break the constraint.
+     Full statement (violations_exact): the same for UNIQUE.  It is FALSE on the faithful model
+     (uniq_violations_exact_refuted below): stale entries record rows that violate nothing; and the
+     other direction for UNIQUE (every duplicate is recorded, after clearArtifact) is not proved. *)
+  Theorem violations_exact_partial b l r m k :
+    (forall k, get m k = overlay_row (get b k) (get l k) (get r k)) ->
+    Valid U b -> Valid U l -> Valid U r ->
+    (In (vt_fk, k) (recorded U b l r m) <-> exists x, get m k = Some x /\ fk_ok_row U m k x = false) /\
+    (In (vt_check, k) (recorded U b l r m) <-> is_parent k = false /\ exists x, get m k = Some x /\ row_ok k x = false) /\
+    (In (vt_notnull, k) (recorded U b l r m) <-> is_parent k = true /\ exists x, get m k = Some x /\ row_ok k x = false).
+  Proof.
+    intros Hm [Hb1 [Hb2 _]] [Hl1 _] [Hr1 _]. unfold recorded, vt_fk, vt_unique, vt_check, vt_notnull.
+    repeat split.
+    - intros H. repeat (apply in_app_or in H as [H|H]);
+        try (exfalso; revert H; apply in_map_ty; discriminate).
+      apply in_map_filter in H as [_ H]. apply (fk_bad_exact b m k Hb2). exact H.
+    - intros [x [Hk Hf]]. apply in_or_app. left. apply in_map_filter.
+      split; [exact (get_some_inU _ _ _ Hk)|]. apply (fk_bad_exact b m k Hb2). exists x. split; assumption.
+    - apply in_app_or in H as [H|H]; [exfalso; revert H; apply in_map_ty; discriminate|].
+      apply in_app_or in H as [H|H]; [exfalso; revert H; apply in_map_ty; discriminate|].
+      apply in_app_or in H as [H|H]; [|exfalso; revert H; apply in_map_ty; discriminate].
+      apply in_map_filter in H as [_ H]. apply andb_true_iff in H as [H _]. apply andb_true_iff in H as [H _].
+      destruct (is_parent k); [discriminate | reflexivity].
+    - apply in_app_or in H as [H|H]; [exfalso; revert H; apply in_map_ty; discriminate|].
+      apply in_app_or in H as [H|H]; [exfalso; revert H; apply in_map_ty; discriminate|].
+      apply in_app_or in H as [H|H]; [|exfalso; revert H; apply in_map_ty; discriminate].
+      apply in_map_filter in H as [_ H]. rewrite <- andb_assoc in H. apply andb_true_iff in H as [Hp H].
+      destruct (is_parent k) eqn:Hpk; [discriminate|].
+      apply (row_bad_exact b l r m k Hm Hb1 Hl1 Hr1). rewrite Hpk. exact H.
+    - intros [Hp [x [Hk Hf]]]. apply in_or_app. right. apply in_or_app. right. apply in_or_app. left.
+      apply in_map_filter. split; [exact (get_some_inU _ _ _ Hk)|].
+      rewrite <- andb_assoc, Hp. cbn [negb andb]. rewrite <- Hp.
+      apply (row_bad_exact b l r m k Hm Hb1 Hl1 Hr1). exists x. split; assumption.
+    - apply in_app_or in H as [H|H]; [exfalso; revert H; apply in_map_ty; discriminate|].
+      apply in_app_or in H as [H|H]; [exfalso; revert H; apply in_map_ty; discriminate|].
+      apply in_app_or in H as [H|H]; [exfalso; revert H; apply in_map_ty; discriminate|].
+      apply in_map_filter in H as [_ H]. apply andb_true_iff in H as [H _]. apply andb_true_iff in H as [H _]. exact H.
+    - apply in_app_or in H as [H|H]; [exfalso; revert H; apply in_map_ty; discriminate|].
+      apply in_app_or in H as [H|H]; [exfalso; revert H; apply in_map_ty; discriminate|].
+      apply in_app_or in H as [H|H]; [exfalso; revert H; apply in_map_ty; discriminate|].
+      apply in_map_filter in H as [_ H]. rewrite <- andb_assoc in H. apply andb_true_iff in H as [Hp H].
+      apply (row_bad_exact b l r m k Hm Hb1 Hl1 Hr1). rewrite Hp. exact H.
+    - intros [Hp [x [Hk Hf]]]. apply in_or_app. right. apply in_or_app. right. apply in_or_app. right.
+      apply in_map_filter. split; [exact (get_some_inU _ _ _ Hk)|].
+      rewrite <- andb_assoc, Hp. cbn [andb].
+      pose proof (proj2 (row_bad_exact b l r m k Hm Hb1 Hl1 Hr1) (ex_intro _ x (conj Hk Hf))) as HH.
+      rewrite Hp in HH. exact HH.
+  Qed.
 End P.
 
-(* non-vacuity: two valid transactions whose combination violates UNIQUE / CHECK are refused *)
+(* ------------------------------------------------------------------ *)
+(* UNIQUE exactness is false on the faithful model: the right branch moves the unique value 0 from
+   row 3 to the new row 1 while the left branch adds row 4; rows 1 and 3 are recorded as unique
+   violations although the merged table has no duplicate.  (Replayed on the implementation by the
+   fixed merge case of props/c24.py: it records the same two rows.) *)
+Definition rf_U : list N := [1; 3; 4; 101; 102].
+Definition rf_base : table := table_of [(101, Some 0, Some 0); (102, Some 1, Some 2); (3, Some 0, Some 1)].
+Definition rf_left : table := snd (apply_stmts rf_U [SInsert 4 (Some 2) (Some 2)] rf_base).
+Definition rf_right : table := snd (apply_stmts rf_U [SUpdate 3 0 (Some 1); SInsert 1 (Some 0) (Some 1)] rf_base).
+
+Theorem uniq_violations_exact_refuted :
+  let '(m, c, v) := branch_merge rf_U rf_base rf_left rf_right in
+  c = false /\ valid rf_U rf_left = true /\ valid rf_U rf_right = true /\ valid rf_U m = true
+  /\ existsb (fun p => fst p =? vt_unique) v = true.
+Proof. vm_compute. repeat split; reflexivity. Qed.
+
+(* non-vacuity: two valid transactions whose combination violates UNIQUE / CHECK / FOREIGN KEY are refused *)
 Example ex_unique :
-  let w := world0 [(1, Some 0, Some 0); (2, Some 1, Some 2)] [] in
+  let w := world0 [(101, Some 0, Some 0); (102, Some 1, Some 2); (1, Some 0, Some 1)] [] in
   map (fun x => so_err (fst x))
-      (fst (crun [1; 2; 3; 4] [(0, SInsert 3 (Some 2) (Some 2)); (1, SInsert 4 (Some 2) (Some 2)); (0, SCommit); (1, SCommit)] w))
+      (fst (crun [1; 3; 4; 101; 102] (exec_c [1; 3; 4; 101; 102])
+                 [(0, SInsert 3 (Some 2) (Some 2)); (1, SInsert 4 (Some 2) (Some 2)); (0, SCommit); (1, SCommit)] w))
   = [0; 0; 0; 2].
 Proof. vm_compute. reflexivity. Qed.
 
-Example ex_check :
-  let w := world0 [(1, Some 1, Some 2)] [] in
+Example ex_fk :
+  let w := world0 [(101, Some 0, Some 0); (102, Some 1, Some 1); (1, Some 0, Some 1)] [] in
   map (fun x => so_err (fst x))
-      (fst (crun [1] [(0, SUpdate 1 0 (Some 2)); (1, SUpdate 1 1 (Some 1)); (0, SCommit); (1, SCommit)] w))
+      (fst (crun [1; 2; 101; 102] (exec_c [1; 2; 101; 102])
+                 [(0, SDelete 102); (1, SInsert 2 (Some 1) (Some 2)); (0, SCommit); (1, SCommit)] w))
   = [0; 0; 0; 2].
 Proof. vm_compute. reflexivity. Qed.
